@@ -209,6 +209,32 @@ class SymPattern:
                 return m
         return None
 
+    def sub(self, repl, s, count=0):
+        """re.sub on a symbolic string (plain replacement text only)"""
+        if isinstance(s, str):
+            return self.real.sub(repl, s, count)
+        if not isinstance(repl, str) or "\\" in repl:
+            raise EngineGap("re.sub with a callable / back-references on a symbolic string")
+        base, off = self._view(s)
+        out, i, n, done = [], off, len(base.it), 0
+        while i <= n:
+            m = self._match_at(base, off, i) if (not count or done < count) else None
+            if m is not None and m.g[0][1] > i:
+                out += list(repl)
+                i = m.g[0][1]
+                done += 1
+            elif m is not None and m.g[0][1] == i:
+                out += list(repl)          # empty match: insert and move on by one character
+                done += 1
+                if i < n:
+                    out.append(base.it[i])
+                i += 1
+            else:
+                if i < n:
+                    out.append(base.it[i])
+                i += 1
+        return SymStr.mk(out)
+
     def fullmatch(self, s):
         if isinstance(s, str):
             return self.real.fullmatch(s)
@@ -243,6 +269,9 @@ class ReShim:
 
     def fullmatch(self, pattern, s, flags=0):
         return self.compile(pattern, flags).fullmatch(s)
+
+    def sub(self, pattern, repl, s, count=0, flags=0):
+        return self.compile(pattern, flags).sub(repl, s, count)
 
     def __getattr__(self, name):
         return getattr(_re, name)
